@@ -98,6 +98,57 @@ Definition primary_key {P} (c : cmd P) : option key :=
   | Some (_, _) => hd_error (cmd_keys c)
   end.
 
+Local Open Scope string_scope.
+(* ---------------------------------------------------------------- the key table and the model
+   The classification SingleHome relies on, written out by hand: variants that may name two or
+   more keys and have no fan-out arm ... *)
+Definition multi_key_tags : list string :=
+  ["MSetNx"; "BatchSet"; "BatchGet"; "Sort"; "RPopLPush"; "LMove"; "Watch"; "Eval"; "EvalSha";
+   "Rename"; "RenameNx"].
+(* ... and the arms the dispatcher model has (local answers and fan-outs) *)
+Definition model_arms : list string :=
+  ["Ping"; "Info"; "FlushDb"; "FlushAll"; "Keys"; "MGet"; "MSet"; "Time"; "DbSize"; "Scan"; "Del"; "Exists"].
+Definition in_tags (t : string) (l : list string) : bool := existsb (String.eqb t) l.
+Definition tag_single_home (t : string) : bool := negb (in_tags t multi_key_tags).
+
+Definition at_most_one_key (spec : list kfield) : bool :=
+  match spec with [] => true | [KOne _] => true | _ => false end.
+Definition field_of (f : kfield) : string :=
+  match f with KOne x | KOpt x | KAll x | KPairs x => x end.
+(* get_primary_key returns the first key get_keys lists *)
+Definition head_consistent (p : kprimary) (spec : list kfield) : bool :=
+  match p, spec with
+  | PNone, _ => true
+  | PField f, KOne g :: _ => String.eqb f g
+  | PFirst f, [KAll g] => String.eqb f g
+  | PFirstPair f, [KPairs g] => String.eqb f g
+  | _, _ => false
+  end.
+(* number of keys a command of this shape can list *)
+Definition conforms (spec : list kfield) (nkeys : nat) : bool :=
+  match spec with
+  | [] => Nat.eqb nkeys 0
+  | [KOne _] => Nat.eqb nkeys 1
+  | [KOne _; KOne _] => Nat.eqb nkeys 2
+  | [KOne _; KOpt _] => Nat.eqb nkeys 1 || Nat.eqb nkeys 2
+  | _ => true
+  end.
+Definition row_ok (row : string * (kprimary * list kfield)) : bool :=
+  let '(t, (p, spec)) := row in
+  Bool.eqb (tag_single_home t) (at_most_one_key spec || in_tags t dispatch_arms)
+  && (in_tags t dispatch_arms || head_consistent p spec)
+  && (in_tags t dispatch_arms || negb (match p with PNone => true | _ => false end) || match spec with [] => true | _ => false end).
+
+(* a default-routed command is well formed when its variant is a row of the table without an arm
+   of its own and it lists as many keys as that row allows *)
+Definition WfCmd {P} (c : cmd P) : Prop :=
+  match c with
+  | COp tag ks _ => in_tags tag dispatch_arms = false /\
+                    exists p spec, table_row tag = Some (p, spec) /\ conforms spec (List.length ks) = true
+  | _ => True
+  end.
+Local Close Scope string_scope.
+
 (* ---------------------------------------------------------------- the per-shard executor
    A shard's state is its keyspace: whatever the executor stores under a key (value, expiry).
    [exec] is CommandExecutor::execute, [get_direct] / [set_direct] the fast-path handlers. *)
@@ -335,7 +386,7 @@ Section Dispatcher.
     end.
   Definition SingleHome (n : nat) (r : req P) : Prop :=
     match r with
-    | Generic c => ~ CrossShard n c /\ (default_routed c -> respects X c)
+    | Generic c => WfCmd c /\ ~ CrossShard n c /\ (default_routed c -> respects X c)
     | _ => True
     end.
 
@@ -347,43 +398,3 @@ Section Dispatcher.
     end.
 End Dispatcher.
 
-(* ---------------------------------------------------------------- the key table and the model
-   The classification SingleHome relies on, written out by hand: variants that may name two or
-   more keys and have no fan-out arm ... *)
-Local Open Scope string_scope.
-Definition multi_key_tags : list string :=
-  ["MSetNx"; "BatchSet"; "BatchGet"; "Sort"; "RPopLPush"; "LMove"; "Watch"; "Eval"; "EvalSha";
-   "Rename"; "RenameNx"].
-(* ... and the arms the dispatcher model has (local answers and fan-outs) *)
-Definition model_arms : list string :=
-  ["Ping"; "Info"; "FlushDb"; "FlushAll"; "Keys"; "MGet"; "MSet"; "Time"; "DbSize"; "Scan"; "Del"; "Exists"].
-Definition in_tags (t : string) (l : list string) : bool := existsb (String.eqb t) l.
-Definition tag_single_home (t : string) : bool := negb (in_tags t multi_key_tags).
-
-Definition at_most_one_key (spec : list kfield) : bool :=
-  match spec with [] => true | [KOne _] => true | _ => false end.
-Definition field_of (f : kfield) : string :=
-  match f with KOne x | KOpt x | KAll x | KPairs x => x end.
-(* get_primary_key returns the first key get_keys lists *)
-Definition head_consistent (p : kprimary) (spec : list kfield) : bool :=
-  match p, spec with
-  | PNone, _ => true
-  | PField f, KOne g :: _ => String.eqb f g
-  | PFirst f, [KAll g] => String.eqb f g
-  | PFirstPair f, [KPairs g] => String.eqb f g
-  | _, _ => false
-  end.
-(* number of keys a command of this shape can list *)
-Definition conforms (spec : list kfield) (nkeys : nat) : bool :=
-  match spec with
-  | [] => Nat.eqb nkeys 0
-  | [KOne _] => Nat.eqb nkeys 1
-  | [KOne _; KOne _] => Nat.eqb nkeys 2
-  | [KOne _; KOpt _] => Nat.eqb nkeys 1 || Nat.eqb nkeys 2
-  | _ => true
-  end.
-Definition row_ok (row : string * (kprimary * list kfield)) : bool :=
-  let '(t, (p, spec)) := row in
-  Bool.eqb (tag_single_home t) (at_most_one_key spec || in_tags t dispatch_arms)
-  && (in_tags t dispatch_arms || head_consistent p spec)
-  && (in_tags t dispatch_arms || negb (match p with PNone => true | _ => false end) || match spec with [] => true | _ => false end).
